@@ -353,6 +353,15 @@ func c02WriterOrder(r *run) {
 			l.AddErrorWriter(curE)
 			how += "; a failing destination put in front of each class list"
 		}
+		if round%2 == 0 {
+			// a writer of its own for one severity, dropped again by the reset for that severity alone: the class writers apply
+			gone := &recorder{}
+			l.AddLevelWriter(slog.InfoLevel, gone)
+			l.AddLevelWriter(slog.WarnLevel, gone)
+			l.ResetLevelWriter(slog.InfoLevel)
+			l.ResetLevelWriter(slog.WarnLevel)
+			how += "; AddLevelWriter(Info, x); AddLevelWriter(Warn, x); ResetLevelWriter(Info); ResetLevelWriter(Warn)"
+		}
 		for _, sev := range []slog.Level{slog.InfoLevel, slog.ErrorLevel, slog.WarnLevel, slog.DebugLevel, slog.TraceLevel} {
 			for _, d := range []*dest{n, e, lw, n2} {
 				d.rec.take()
@@ -390,6 +399,29 @@ func c02WriterOrder(r *run) {
 			}
 		}
 	}
+	slog.VerifResetGlobals()
+	// the process-wide debug mode is read when a call is judged, not when the logger was given its level
+	for round := 0; round < 4; round++ {
+		slog.VerifResetGlobals()
+		slog.VerifSetDebugMode(round%2 == 0)
+		rec := &recorder{}
+		l := slog.New("debug-flip").SetWriter(rec).SetErrorWriter(rec).SetLevel(slog.WarnLevel).SetColorMode(round < 2)
+		slog.VerifSetDebugMode(round%2 != 0)
+		rec.take()
+		l.Debug("a debug call after the debug mode changed", "round", round)
+		w := rec.take()
+		want := 0
+		if round%2 != 0 {
+			want = 1
+		}
+		r.seen(fmt.Sprintf("debug-flip|%d", round))
+		if len(w) != want {
+			r.violate(violation{What: "a Debug call on a Warn-level logger is not judged by the debug mode in force at the call",
+				Input:    map[string]any{"debug_mode_when_the_level_was_set": round%2 == 0, "debug_mode_at_the_call": round%2 != 0, "logger_level": "warning"},
+				Expected: fmt.Sprintf("%d Write(s)", want), Actual: fmt.Sprintf("%d Write(s)", len(w))})
+		}
+	}
+	slog.VerifSetDebugMode(false)
 	slog.VerifResetGlobals()
 }
 
